@@ -110,8 +110,29 @@ pub fn def_source(d: &Def, u: &Universe) -> String {
     // the name of the lifetime parameter is the user's choice (the harness-side impls refer to it by position): every third
     // definition spells it differently, including the name serde users are used to
     let alt = ["'a", "'input", "'de"][d.name().bytes().map(|b| b as usize).sum::<usize>() % 3];
-    if alt == "'a" { return s }
-    s.replace("<'a>", &format!("<{}>", alt)).replace("<'a, ", &format!("<{}, ", alt)).replace("&'a ", &format!("&{} ", alt))
+    let s = if alt == "'a" { s } else { s.replace("<'a>", &format!("<{}>", alt)).replace("<'a, ", &format!("<{}, ", alt)).replace("&'a ", &format!("&{} ", alt)) };
+    decorate(&s, d.name().bytes().map(|b| b as usize).sum::<usize>())
+}
+
+/// What real code carries next to the `#[cbor(..)]` attributes and must not disturb the macros: doc comments (also ones
+/// that quote attribute syntax), lint attributes, a `where` clause on a generic definition. Every fourth definition.
+fn decorate(src: &str, h: usize) -> String {
+    if h % 4 != 1 { return src.to_string() }
+    let mut out = String::new();
+    for line in src.lines() {
+        let t = line.trim_start();
+        if t.starts_with("#[derive(") { out.push_str("/// A record. Fields carry `#[n(0)]`-style indices; see `#[cbor(map)]`.\n#[allow(dead_code, clippy::all)]\n"); out.push_str(line); out.push('\n'); out.push_str("#[doc(hidden)]\n"); continue }
+        if t.starts_with("#[cbor(n(") && line.starts_with("    ") { out.push_str("    /// A variant: `#[cbor(n(99), tag(1))]` is not its index.\n    #[allow(dead_code)]\n") }
+        let mut l = line.to_string();
+        // field attributes: a doc attribute in front of the first field, a lint attribute in front of the second index attribute
+        if let Some(p) = l.find("{ #[").map(|p| p + 2).or_else(|| l.find("(#[").map(|p| p + 1)) { l.insert_str(p, "#[doc = \"first field, not `#[b(7)]`\"] ") }
+        if let Some(p) = l.rfind(", #[") { l.insert_str(p + 2, "#[allow(unused)] ") }
+        // a where clause on generic named structs
+        if l.starts_with("pub struct ") && l.contains("<T> {") { l = l.replacen("<T> {", "<T> where T: Sized {", 1) }
+        if l.starts_with("pub struct ") && l.contains("<'a, T> {") { l = l.replacen("<'a, T> {", "<'a, T> where T: Sized + 'a {", 1) }
+        out.push_str(&l); out.push('\n');
+    }
+    out
 }
 
 fn def_source_a(d: &Def, u: &Universe) -> String {
